@@ -469,8 +469,6 @@ end Field
 
 /-! ### non-vacuity -/
 
-def s (x : String) : Str := x.toList
-
 /-- two directories; the class `u.Q` inherits from `v.P`, whose attribute `a` is configured in the
 second directory only -/
 def dirA : Config Int := [⟨['Q', '.', 'b', '.', 'w'], .wm false 7⟩, ⟨['b', '.', 'w'], .wm false 1⟩]
@@ -560,8 +558,8 @@ theorem result_vector_roundtrip (t : Node V') (v : List V) (hv : v.length = (uni
   obtain ⟨hlen, h1, h2⟩ := keysOwnGroups_spec _ _ hown
   exact vectorOfKwargs_own (uniquePaths t) (allPaths t) v hlen hv h1 h2
 
-/-- hence the arguments built through a result are those built from the vector directly: every
-theorem above about `passArgsCfg` applies to `Result.model`, `model_absolute`, `model_relative`
+/-- hence the arguments built through a result are those built from the vector directly: each
+of the theorems above about `passArgsCfg` applies to `Result.model`, `model_absolute`, `model_relative`
 (median vector) and `model_bounded` (maximum likelihood vector) -/
 theorem result_route_same_arguments (po : PassOps V) (dflt z : V) (cs : List (Config V)) (mode : PassMode V)
     (t : Node V') (olds : List (PD V)) (places : List (Place V)) (v : List V)
